@@ -117,6 +117,41 @@ var $dump = (function(){
 })();
 `
 
+// intrinsics: objects the runtime creates by itself (literals, results of
+// built-ins, errors it raises) must get the prototypes of THIS runtime, i.e.
+// the objects its own constructors show. A copy keeps a second, internal table
+// of these prototypes; it must match the script-visible one slot by slot.
+const intrinsics = `
+$probes.push((function(){
+  var gpo = Object.getPrototypeOf, ev = eval, dec = decodeURIComponent, parse = JSON.parse, exec = RegExp.prototype.exec, bind = Function.prototype.bind,
+      ctor = { Object: Object, Array: Array, Function: Function, RegExp: RegExp, Date: Date, String: String, Number: Number, Boolean: Boolean, Error: Error,
+               TypeError: TypeError, ReferenceError: ReferenceError, RangeError: RangeError, SyntaxError: SyntaxError, URIError: URIError, EvalError: EvalError };
+  function raised(f){ try { f() } catch (e) { return e } return null }
+  var made = [
+    ["Object", function(){ return {} }], ["Array", function(){ return [] }], ["Function", function(){ return function(){} }], ["RegExp", function(){ return /x/ }],
+    ["Object", function(){ return parse('{"a":[1]}') }], ["Array", function(){ return parse('[1]') }], ["Array", function(){ return exec.call(/a/, "a") }],
+    ["Array", function(){ return "a,b".split(",") }], ["Array", function(){ return [1].concat([2]) }], ["Array", function(){ return Object.keys({a:1}) }],
+    ["Function", function(){ return bind.call(function(){}, null) }], ["Function", function(){ return Function("return 1") }], ["Object", function(){ return (function(){ return arguments })() }],
+    ["Object", function(){ return Object.getOwnPropertyDescriptor({a:1}, "a") }], ["Object", function(){ return new (function F(){}) && Object.create(Object.prototype) }],
+    ["String", function(){ return Object("s") }], ["Number", function(){ return Object(1) }], ["Boolean", function(){ return Object(true) }], ["Date", function(){ return new Date(0) }],
+    ["TypeError", function(){ return raised(function(){ null.x }) }], ["TypeError", function(){ return raised(function(){ undefined() }) }],
+    ["ReferenceError", function(){ return raised(function(){ undeclared$variable }) }], ["RangeError", function(){ return raised(function(){ new Array(-1) }) }],
+    ["RangeError", function(){ return raised(function(){ (1).toFixed(101) }) }], ["SyntaxError", function(){ return raised(function(){ ev("(") }) }],
+    ["SyntaxError", function(){ return raised(function(){ Function("(") }) }], ["SyntaxError", function(){ return raised(function(){ parse("{") }) }],
+    ["SyntaxError", function(){ return raised(function(){ new RegExp("(") }) }], ["URIError", function(){ return raised(function(){ dec("%") }) }],
+    ["Error", function(){ return new Error("e") }], ["EvalError", function(){ return new EvalError("e") }], ["TypeError", function(){ return TypeError("t") }], ["URIError", function(){ return new URIError("u") }]
+  ];
+  return function(){
+    var out = [];
+    for (var i = 0; i < made.length; i++) {
+      var r; try { var o = made[i][1](); r = o === null || o === undefined ? "none" : (gpo(o) === ctor[made[i][0]].prototype ? "ok" : "FOREIGN-PROTOTYPE") } catch (e) { r = "throw:" + (e && e.name) }
+      out.push(i + ":" + made[i][0] + ":" + r);
+    }
+    return out.join(" ");
+  };
+})());
+`
+
 const prelude = `
 var counter = (function(){ var n = 0; return { inc: function(){ return ++n }, get: function(){ return n } } })();
 $probes.push(counter.get);
@@ -225,7 +260,7 @@ func newVM() *otto.Otto {
 		v, _ := otto.ToValue(i)
 		return v
 	})
-	if _, err := vm.Run(dumper); err != nil {
+	if _, err := vm.Run(dumper + intrinsics); err != nil {
 		panic("dumper does not load: " + err.Error())
 	}
 	return vm
